@@ -475,6 +475,7 @@ class C13Monitor(Monitor):
         touched = {o.get('dev') for o in f.spec.get('ops', []) if o['op'] in ('fail', 'shutdown', 'restore')}
         self.wo_only = {n for n in f.procs if n not in touched}
         self.fail_type = f.lib.EventType.FAIL
+        self.restored_holding = {}
 
     def before_step(self, f):
         self.slots_before = {n: (f.dev[n]._part, f.dev[n]._output) for n in f.procs}
@@ -558,6 +559,10 @@ class C13Monitor(Monitor):
                 elif rest:
                     f.fail('C13.d', f'{n} was not restored in this step but restored callbacks ran', 'spurious_restore_cb')
             self.df_seen[n] = len(env.simulation_data.get('device_failure', {}).get(n, []))
+            if was_down and not is_down and o._output is not None:
+                self.restored_holding[n] = o._output
+            elif o._output is None:
+                self.restored_holding[n] = None
             # (d) redundant calls change nothing
             op = f.cur_op
             if op is not None and op.get('dev') == n:
@@ -578,6 +583,27 @@ class C13Monitor(Monitor):
                     f.fail('C13.f', f'{n} has {st - fi} work orders in progress but is_operational() is '
                            f'{not is_down}', 'wo_down')
         self.ev(f, 'C13', len(f.procs))
+
+    def quiescent(self, f):
+        """(g) a finished part kept through a failure/shutdown leaves after restoration: once the machine is
+        operational again and time is about to advance, no downstream may be willing to take it."""
+        ready = []
+        for n in f.procs:
+            o = f.dev[n]
+            if o._output is not None and o.is_operational() and self.restored_holding.get(n) is o._output:
+                ready.append((n, o._output))
+        self.ev(f, 'C13.g', len(ready))
+        if not ready:
+            return
+        f.bump(f.stats['reach'], 'restored_with_finished_part_probes')
+        res = probe_offers(f, ready)
+        if res is None:
+            return
+        if res[0] == '!EXC':
+            return
+        holder, part, taker = res
+        f.fail('C13.g', f'{holder} was restored holding finished part {part}; at t={f.env.now} time advances and the part '
+               f'is still there although downstream {taker} accepts it when offered', 'finished_part_stuck')
 
     def after_simulate(self, f):
         for n in f.procs:
@@ -1217,13 +1243,121 @@ class C01FloorMonitor(Monitor):
         self.ev(f, 'C01.e')
 
 
+# ===========================================================================
+# C08.f among parallel single-slot candidates the one idle longest receives the part
+# ===========================================================================
+def probe_candidates(f, holder, item, cands):
+    """One forked child per candidate: would it accept the part if it were offered alone?"""
+    out = []
+    for c in cands:
+        r, w = os.pipe()
+        pid = os.fork()
+        if pid == 0:
+            try:
+                os.close(r)
+                try:
+                    ok = bool(f.dev[c].give_part(item))
+                except BaseException:
+                    ok = False
+                os.write(w, b'1' if ok else b'0')
+            finally:
+                os._exit(0)
+        os.close(w)
+        data = os.read(r, 16)
+        os.close(r)
+        os.waitpid(pid, 0)
+        if not data:
+            raise HarnessError('candidate probe child died')
+        if data == b'1':
+            out.append(c)
+    return out
+
+
+class C08FMonitor(Monitor):
+    SINGLE = ('handler', 'proc', 'sink')
+
+    def start(self, f):
+        self.single = [n for n in f.holders if f.kind[n] in self.SINGLE]
+        self.idle_since = {n: 0 for n in self.single}     # empty and operational since
+        self.empty_since = {n: 0 for n in self.single}    # empty since (whatever the operational state)
+        self.recv_seen = 0
+        self.pending = None
+        g = RouteGraph(f.spec)
+        self.direct = {}
+        for n in f.holders:
+            if f.kind[n] == 'sink' or 'in' in f.dspec[n]:
+                continue
+            dn = g.down[n]
+            if len(dn) >= 2 and all(f.kind.get(d) in self.SINGLE and 'in' not in f.dspec[d] for d in dn):
+                self.direct[n] = list(dn)
+
+    def before_step(self, f):
+        self.pending = None
+        if f.rewired or not self.direct:
+            return
+        ev = f.env._events[0]
+        a = ev.action
+        h = f.name_of.get(id(getattr(a, '__self__', None)))
+        if h not in self.direct or getattr(a, '__name__', '') != '_pass_part_downstream' or ev.cancelled:
+            return
+        ready = dict(ready_parts(f)).get(h)
+        if ready is None:
+            return
+        cands = [c for c in self.direct[h] if self.idle_since[c] is not None]
+        if len(cands) < 2:
+            return
+        acc = probe_candidates(f, h, ready, cands)
+        f.bump(f.stats['reach'], 'handovers_with_choice_probed')
+        if len(acc) >= 2:
+            self.pending = (h, ready, acc, {c: (self.idle_since[c], self.empty_since[c]) for c in acc})
+
+    def after_step(self, f, e):
+        now = f.env.now
+        accepted = set()
+        while self.recv_seen < len(f.recv_log):
+            accepted.add(f.recv_log[self.recv_seen][0])
+            self.recv_seen += 1
+        if self.pending is not None:
+            h, item, acc, since = self.pending
+            taker = None
+            for c in acc:
+                o = f.dev[c]
+                if o._part is item or o._output is item or (f.kind[c] == 'sink' and c in accepted and
+                                                            f.dev[c].collected_parts and f.dev[c].collected_parts[-1] is item):
+                    taker = c
+            if taker is not None:
+                self.ev(f, 'C08.f')
+                if len(set(since.values())) > 1:
+                    f.bump(f.stats['reach'], 'choice_with_distinct_idle_times')
+                # "idle" may or may not count time spent shut down: flag only if another candidate has been idle
+                # longer under both readings (its operational-and-empty time precedes the taker's empty time)
+                longer = [c for c in acc if c != taker and since[c][0] < since[taker][1]]
+                if longer:
+                    f.fail('C08.f', f'{h} handed {item.name} to {taker} (empty since {since[taker][1]}) although '
+                           f'{longer} would have accepted it and has been empty and operational since '
+                           f'{[since[c][0] for c in longer]}', 'not_longest_idle')
+            self.pending = None
+        for n in self.single:
+            o = f.dev[n]
+            empty = o._part is None and o._output is None
+            idle = empty and o.is_operational()
+            if not empty:
+                self.empty_since[n] = None
+            elif self.empty_since[n] is None or n in accepted:
+                self.empty_since[n] = now
+            if not idle:
+                self.idle_since[n] = None
+            elif self.idle_since[n] is None or n in accepted:
+                self.idle_since[n] = now
+
+
 BY_PROP = {
     'C01': [C01FloorMonitor],
     'C02': [DownTracker, Census, C02Monitor],
     'C03': [C03Monitor],
     'C05': [C05Monitor],
     'C06': [DownTracker, Integrator, C06Monitor],
-    'C08': [Census, C08Monitor],
+    'C08': [Census, C08Monitor, C08FMonitor],
     'C11': [C11Monitor],
     'C13': [DownTracker, Integrator, C13Monitor],
     'C15': [C15Monitor],
